@@ -224,21 +224,21 @@ impl SingleFileCleaner {
 //@ contract
         requires
             old(self).wf(),
-            /*@C01,C04,C14*/ old(self).conserved(),
+            /*@C01,C03,C04,C14*/ old(self).conserved(),
             /*@C02*/ old(self).sha_in_sync(),
             /*@C14*/ old(self).counted(),
             /*@AUX*/ data@.len() <= isize::MAX,
             /*@AUX*/ old(self).fed_total() + data@.len() <= usize::MAX,
             // the function's own splitting contract (call sites in add_data): one call never carries more than one ingestion block
-            /*@C01,C04*/ data@.len() <= spec_INGESTION_BLOCK_SIZE(),
+            /*@C01,C03,C04*/ data@.len() <= spec_INGESTION_BLOCK_SIZE(),
         ensures
             /*@AUX*/ r is Ok ==> final(self).wf(),
             /*@AUX*/ r is Ok ==> chunker_max(&final(self).chunker) == chunker_max(&old(self).chunker),
             // exactly one block, the whole argument, was handed to the chunker
-            /*@C01,C02,C04,C14*/ r is Ok ==> chunker_blocks(&final(self).chunker) == chunker_blocks(&old(self).chunker).push(data@),
-            /*@C01,C02,C04,C14*/ r is Ok ==> final(self).fed_bytes() =~= old(self).fed_bytes() + data@,
+            /*@C01,C02,C03,C04,C14*/ r is Ok ==> chunker_blocks(&final(self).chunker) == chunker_blocks(&old(self).chunker).push(data@),
+            /*@C01,C02,C03,C04,C14*/ r is Ok ==> final(self).fed_bytes() =~= old(self).fed_bytes() + data@,
             // every chunk the chunker emitted for it went on to the deduper (the rest is still buffered) ...
-            /*@C01,C04,C14*/ r is Ok ==> final(self).conserved(),
+            /*@C01,C03,C04,C14*/ r is Ok ==> final(self).conserved(),
             // ... and to the SHA-256 generator, in the same order
             /*@C02*/ r is Ok ==> final(self).sha_in_sync(),
             /*@C14*/ r is Ok ==> final(self).counted(),
@@ -252,7 +252,7 @@ impl SingleFileCleaner {
 //@ contract
         requires
             old(self).wf(),
-            /*@C01,C04,C14*/ old(self).conserved(),
+            /*@C01,C03,C04,C14*/ old(self).conserved(),
             /*@C02*/ old(self).sha_in_sync(),
             /*@C14*/ old(self).counted(),
             /*@AUX*/ data@.len() <= isize::MAX,
@@ -260,15 +260,15 @@ impl SingleFileCleaner {
         ensures
             /*@AUX*/ r is Ok ==> final(self).wf(),
             // (a) the blocks handed to the chunker by this call continue the history and concatenate to exactly `data`, in order
-            /*@C01,C02,C04,C14*/ r is Ok ==> extends(chunker_blocks(&old(self).chunker), chunker_blocks(&final(self).chunker)),
-            /*@C01,C02,C04,C14*/ r is Ok ==> final(self).fed_bytes() =~= old(self).fed_bytes() + data@,
+            /*@C01,C02,C03,C04,C14*/ r is Ok ==> extends(chunker_blocks(&old(self).chunker), chunker_blocks(&final(self).chunker)),
+            /*@C01,C02,C03,C04,C14*/ r is Ok ==> final(self).fed_bytes() =~= old(self).fed_bytes() + data@,
             // (b) every block is at most one ingestion block and, for a non-empty buffer, non-empty
-            /*@C01,C04*/ r is Ok ==> new_blocks_bounded(chunker_blocks(&old(self).chunker), chunker_blocks(&final(self).chunker), spec_INGESTION_BLOCK_SIZE() as int, data@.len() > 0),
+            /*@C01,C03,C04*/ r is Ok ==> new_blocks_bounded(chunker_blocks(&old(self).chunker), chunker_blocks(&final(self).chunker), spec_INGESTION_BLOCK_SIZE() as int, data@.len() > 0),
             // (c) state level: the number of bytes fed grows by exactly data.len()
             /*@C14*/ r is Ok ==> final(self).fed_total() == old(self).fed_total() + data@.len(),
             // (d) downstream: deduper chunks ++ chunker buffer is everything fed; SHA generator in step with the deduper; counter
-            /*@C01,C04,C14*/ r is Ok ==> final(self).conserved(),
-            /*@C01,C04,C14*/ r is Ok ==> final(self).stream() =~= old(self).stream() + data@,
+            /*@C01,C03,C04,C14*/ r is Ok ==> final(self).conserved(),
+            /*@C01,C03,C04,C14*/ r is Ok ==> final(self).stream() =~= old(self).stream() + data@,
             /*@C02*/ r is Ok ==> final(self).sha_in_sync(),
             /*@C14*/ r is Ok ==> final(self).counted(),
             /*@C14*/ r is Ok ==> dd_metrics(&final(self).dedup_manager).total_bytes + chunker_buf(&final(self).chunker).len() == dd_metrics(&old(self).dedup_manager).total_bytes + chunker_buf(&old(self).chunker).len() + data@.len(),
@@ -279,14 +279,14 @@ impl SingleFileCleaner {
                     data@.len() <= isize::MAX, self.wf(), chunker_max(&self.chunker) == mx,
                     spec_INGESTION_BLOCK_SIZE() < data@.len(),
                     b0 == chunker_blocks(&old(self).chunker), flat(b0).len() + data@.len() <= usize::MAX,
-                    /*@C01,C04,C14*/ self.conserved(),
+                    /*@C01,C03,C04,C14*/ self.conserved(),
                     /*@C02*/ self.sha_in_sync(),
                     /*@C14*/ self.counted(),
                     // the property for the prefix fed so far: history continued, its bytes are data[..pos], blocks bounded
                     // (`upto` = min(pos, len): a loop that steps `pos` by whole blocks past the end is as good as one that stops at it)
-                    /*@C01,C02,C04,C14*/ extends(b0, chunker_blocks(&self.chunker)),
-                    /*@C01,C02,C04,C14*/ flat(chunker_blocks(&self.chunker)) =~= flat(b0) + data@.subrange(0, upto(pos, data@.len())),
-                    /*@C01,C04*/ new_blocks_bounded(b0, chunker_blocks(&self.chunker), spec_INGESTION_BLOCK_SIZE() as int, true),
+                    /*@C01,C02,C03,C04,C14*/ extends(b0, chunker_blocks(&self.chunker)),
+                    /*@C01,C02,C03,C04,C14*/ flat(chunker_blocks(&self.chunker)) =~= flat(b0) + data@.subrange(0, upto(pos, data@.len())),
+                    /*@C01,C03,C04*/ new_blocks_bounded(b0, chunker_blocks(&self.chunker), spec_INGESTION_BLOCK_SIZE() as int, true),
                 decreases data@.len() - upto(pos, data@.len()),
 //@ end
 
@@ -302,14 +302,14 @@ impl SingleFileCleaner {
 //@ contract
         requires
             self.wf(),
-            /*@C01,C04,C14*/ self.conserved(),
+            /*@C01,C03,C04,C14*/ self.conserved(),
             /*@C02*/ self.sha_in_sync(),
             /*@C14*/ self.counted(),
             /*@AUX*/ self.fed_total() <= usize::MAX,
         ensures
             /*@AUX*/ ret matches Ok(p) ==> dd_wf(&p.0),
             // every byte fed has reached the deduper as chunk data, in order (nothing is left in the chunker)
-            /*@C01,C04,C14*/ ret matches Ok(p) ==> concat_chunks(dd_fed(&p.0)) =~= self.fed_bytes(),
+            /*@C01,C03,C04,C14*/ ret matches Ok(p) ==> concat_chunks(dd_fed(&p.0)) =~= self.fed_bytes(),
             // the total-bytes counter is the number of bytes fed
             /*@C14*/ ret matches Ok(p) ==> dd_metrics(&p.0).total_bytes == concat_chunks(dd_fed(&p.0)).len() && concat_chunks(dd_fed(&p.0)).len() == self.fed_total(),
             // the SHA-256 handed on for the file record is the digest of exactly the bytes fed, in order
